@@ -365,8 +365,12 @@ def _wrap_dict_method(name, orig):
             s2 = st.assume(tm.not_(absent)).fork()
             return ex.raise_(st.assume(absent), "KeyError", k) + [(s2, "ok", ex.models.from_elem(ex, s2, cur))]
         if name == "pop":
-            s2 = st.assume(tm.not_(absent)).fork()
-            s2.set_inplace(self, "arr", VT(tm.store(arr, kt, ABSENT)))
+            # finite-map law (D-DICT): removing a present key makes the number of keys one smaller, never negative
+            arr2 = tm.store(arr, kt, ABSENT)
+            s2 = st.assume(tm.not_(absent), tm.eq(tm.app("card", INT, arr2), tm.sub(tm.app("card", INT, arr), 1)),
+                           tm.le(0, tm.app("card", INT, arr2))).fork()
+            s2.set_inplace(self, "arr", VT(arr2))
+            ex.used_models.add("D-DICT")
             res = [(s2, "ok", ex.models.from_elem(ex, s2, cur))]
             if len(args) > 1:
                 res.append((st.assume(absent), "ok", args[1]))
